@@ -5,7 +5,7 @@
 cd "$(dirname "$0")/.."
 SCALE=${1:-1}
 PFX=${2:-C}
-OUT=seeded/REGRESS.md
+OUT=${OUT:-seeded/REGRESS.md}
 [ "$PFX" = "C" ] && { echo "| seeded change | check | result |" > $OUT; echo "|---|---|---|" >> $OUT; }
 for d in seeded/${PFX}*/; do
   id=$(basename $d)
